@@ -1906,8 +1906,14 @@ impl<'a> Evaluator<'a> {
                         "replace" => {
                             let a = self.eval(&mc.args[0], env)?;
                             let b = self.eval(&mc.args[1], env)?;
-                            let from = match a { Val::Str(s) => s, Val::Char(c) => c.to_string(), o => return Err(format!("replace({})", o.show())) };
                             let to = match b { Val::Str(s) => s, Val::Char(c) => c.to_string(), o => return Err(format!("replace(_, {})", o.show())) };
+                            // a set of characters as the pattern (`replace(['\r', '\t'], " ")`)
+                            if let Val::List(cs) = &a {
+                                let set: Option<Vec<char>> = cs.iter().map(|v| match v { Val::Char(c) => Some(*c), _ => None }).collect();
+                                let Some(set) = set else { return Err(format!("replace({})", a.show())) };
+                                return Ok(Val::Str(st.replace(&set[..], &to)));
+                            }
+                            let from = match a { Val::Str(s) => s, Val::Char(c) => c.to_string(), o => return Err(format!("replace({})", o.show())) };
                             return Ok(Val::Str(st.replace(&from, &to)));
                         }
                         _ => {}
